@@ -97,7 +97,25 @@ def run(ck, m):
                        'or a refused append returning early, leaves the log flagged valid while it names a key id no keys file knows'
                        % (short(ub.id), [ub.loc(x) for x in inv_here]))
             ck.ob('C16.a', short(ub.id) if ub.id != lb.id else short(lb.id), 'id-before-append', ok, why, ub.loc(bi))
-    ck.floor('C16.a', n, 1 if len(users) == 1 and lb.id not in users else 3, 'oplog appends that use an allocated key id')
+    ck.floor('C16.a', n, 1 if len(users) == 1 and lb.id not in users else 2, 'oplog appends that use an allocated key id')
+    # every record names its key by an id the allocator handed out for THAT key (or by a literal for the records that name no key:
+    # create-db, snapshot): an id obtained any other way (a lookup with a default) is some other key's id — id 0 is the first key the
+    # node ever registered — so the record decodes to that key
+    na = 0
+    for ub in users.values():
+        for bi, t in ub.calls():
+            if not ('op_log' in callee(t) and 'try_write' in callee(t)) or len(t['args']) < 3:
+                continue
+            na += 1
+            roots = origins(ub, t['args'][2], stop_at_calls=True)
+            other = [r for r in roots if not (r[0] == 'const' or (r[0] == 'call' and callee(ub.term(r[1])) == ab.id))]
+            ck.ob('C16.a', short(ub.id), 'key-id-from-the-allocator:%d' % na, not other,
+                  'the key id of the record is the allocator\'s answer for the key (or a literal for a record that names no key)' if not other else
+                  'the record appended at %s takes its key id from %s, not from the allocator: for a key the node has no id for, the record is '
+                  'written under another key\'s id (the default 0 is the first key ever registered) and decodes to that key, in this life and '
+                  'after every restart' % (ub.loc(bi), sorted({callee_decl(ub.term(r[1])).split('::')[-1] if r[0] == 'call' else r[0] for r in other})),
+                  ub.loc(bi))
+    ck.floor('C16.a', na, 4, 'oplog appends in the replication loop')
     ins = [bi for bi, t in ab.calls() if t['f'].get('dargs', '').startswith(KM + 'insert')]
     if inv_in_alloc:
         inv = inv_in_alloc
@@ -153,6 +171,36 @@ def run(ck, m):
         ok = bool(w) and bool(v) and all(b.dominates(x, y) for x in w for y in v)
         ck.ob('C16.b', short(b.id), 'map-before-valid', ok,
               'the key map is written before the log is marked valid' if ok else 'the log can be marked valid before the key map is on disk', '%s:%s' % (b.file, b.line))
+        # "written" means written: the writer of the key map returns normally only if the open and the write succeeded — its fallible
+        # calls are unwrapped (or its Result is returned and tested here).  A writer that logs the error and returns lets the flag be
+        # set over a missing / stale keys file; the log is then kept although its ids are unknown
+        for x in w:
+            wb_ = P.bodies.get(callee(b.term(x)))
+            if wb_ is None:
+                continue
+            scope = [wb_] + [P.bodies[k] for k in P.bodies if k.startswith(wb_.id + '::{closure')]
+            swallowed, nf_ = [], 0
+            returns_result = wb_.locals[0].startswith('std::result::Result<')
+            for sb_ in scope:
+                for bi2, t2 in sb_.calls():
+                    dloc = t2['d']['l'] if not t2['d'].get('p') else None
+                    if dloc is None or not sb_.locals[dloc].startswith('std::result::Result<'):
+                        continue
+                    d2 = callee_decl(t2)
+                    if not (d2.startswith(('std::fs::', 'std::io::', 'bincode::')) or 'serialize' in d2):
+                        continue
+                    nf_ += 1
+                    users = [callee_decl(t3) for x3, t3 in sb_.calls() if any(r[0] == 'call' and r[1] == bi2 for a in t3['args']
+                                                                            for r in origins(sb_, a, stop_at_calls=True))]
+                    if any(u.endswith(('Result::unwrap', 'Result::expect')) for u in users):
+                        continue
+                    swallowed.append('%s@%s' % (d2.split('::')[-1], sb_.loc(bi2)))
+            ok_w = not swallowed or returns_result
+            ck.ob('C16.b', short(wb_.id), 'key-map-write-cannot-fail-silently', ok_w and nf_ > 0,
+                  'every fallible step of the key-map writer is unwrapped: the function returns only after a successful write' if ok_w and nf_ > 0 else
+                  'the key-map writer does not unwrap %s and returns normally: after an I/O error (disk full, too many open files) snapshot_keys '
+                  'still marks the log valid — the flag says valid over a missing or stale keys file, no later round rewrites it, and after a '
+                  'restart the kept log names ids the keys file does not know (the next new key reuses one)' % swallowed, '%s:%s' % (wb_.file, wb_.line))
     # flag writers keep memory and disk equal
     for name, want in (('invalidate_oplog', False), ('mark_op_log_as_valid', True)):
         fs = [b for b in P.user_bodies() if b.id.endswith('disk_ops::' + name)]
